@@ -7,6 +7,7 @@ Line-protocol driver for C12.  One case = space separated `key=value` words:
   ex=bytes|string|json|form|tbl|tbs  lim=<n>|dflt  cl=none|bad|<n>  enc=id|gz|df|br|zs
   body=<spec>  wire=<n>  cuts=<tok,tok,…>
   ex=mp form=A|B|C total=<n>|dflt mem=<n>|dflt fields=<name:len;…> cuts=<…>
+  ex=fb lim=<n> body=<spec> cuts=<…>      (`Field::bytes(lim)` on the first of two multipart fields)
 
 `body` is the *plain* (decoded) body: `x:<hex>` | `r:<byte>:<n>` | `q:<seed>:<n>` (LCG) |
 `j:<n>` (a JSON string literal of n bytes) | `f:<n>` (`a=` + n-2 letters).  `cuts` cut the wire
@@ -211,10 +212,23 @@ def runMp (ws : List String) : String :=
   | .overflow _ => "overflow st=400"
   | .duplicate _ => "duplicate st=400"
 
+/-- `Field::bytes(limit)`: by `C12_field_bytes_chunking_independent` the parser's chunking of the
+field does not matter; an injected stream error (always before the field's end) wins -/
+def runFb (ws : List String) : String :=
+  let limit := kvNat ws "lim" 0
+  let body := bodyOfSpec ((kv ws "body").getD "x:-")
+  let toks := ((kv ws "cuts").getD "").splitOn "," |>.filter (· ≠ "")
+  let items := [Item.chunk body] ++ (if hasE toks then [Item.err] else [])
+  match fieldBytes limit items with
+  | .ok b => showOk b ++ " next=1"
+  | .limitExceeded => "limit-exceeded next=1"
+  | .streamErr => "stream-err next=0"
+
 def run (line : String) : String :=
   let ws := words line
   match kv ws "ex" with
   | some "mp" => runMp ws
+  | some "fb" => runFb ws
   | some ex => runStream ws ex
   | none => "bad-case"
 
